@@ -19,6 +19,8 @@ import (
 	"github.com/go-kid/ioc/util/framework_helper"
 
 	"verifharness/internal/hx"
+	east "verifharness/u/east/model"
+	west "verifharness/u/west/model"
 )
 
 func init() { register(&Sub{Name: "naming", Gen: namingGen, Replay: namingReplay}) }
@@ -78,7 +80,30 @@ func runNamingHistory(ops [][2]int, names []string, tags []string, w *hx.Writer)
 	w.Put(hx.Case{Scn: "H " + strings.Join(toks, " "), Obs: o, Oracle: joinFails(fails), Tags: tags})
 }
 
+// same short type name `model.User` in two packages: default names must differ, in whichever order they are first seen
+func namingTwins(w *hx.Writer) {
+	objs := []any{&east.User{}, &west.User{}, &west.User{Custom: "cw"}, &east.User{}}
+	for _, o := range objs {
+		t := reflect.TypeOf(o).Elem()
+		cust := ""
+		if nc, ok := o.(interface{ Naming() string }); ok {
+			cust = nc.Naming()
+		}
+		got := framework_helper.GetComponentName(o)
+		want := cust
+		if want == "" {
+			want = t.PkgPath() + "/" + t.Name()
+		}
+		c := hx.Case{Scn: fmt.Sprintf("N %s %s %s", hx.Hex(cust), hx.Hex(t.PkgPath()), hx.Hex(t.Name())), Obs: hx.Hex(got), Tags: []string{"name", "twins"}}
+		if got != want {
+			c.Oracle = fmt.Sprintf("FAIL c07-name registered name %q, expected %q", got, want)
+		}
+		w.Put(c)
+	}
+}
+
 func namingGen(rng *hx.Rng, n int, tier string, w *hx.Writer) {
+	namingTwins(w)
 	pool := []string{"a", "b", "svc", "main/T0", "x/y", ""}
 	for i := 0; i < n; i++ {
 		r := rng.Fork()
